@@ -175,8 +175,8 @@ class Flat:
     def _rec(self, s: SCFG, parent, depth, active):
         if id(s) in active:
             raise Viol("H-cycle", "sub-graph contains itself")
-        if depth > 200:
-            raise Viol("H-depth", "hierarchy deeper than 200")
+        if depth > 2000:
+            raise Viol("H-depth", "hierarchy deeper than 2000")
         self.depth = max(self.depth, depth)
         for k, b in s.graph.items():
             if k != b.name:
@@ -411,8 +411,8 @@ def walk_regions(orig: dict, scfg: SCFG, stats=None):
                 g = graph_of(stack)
             b = g.graph[name]
             if isinstance(b, RegionBlock):
-                if len(stack) > 200:
-                    raise Viol("R-depth", "region nesting deeper than 200")
+                if len(stack) > 2000:
+                    raise Viol("R-depth", "region nesting deeper than 2000")
                 stack.append(b)
                 if b.subregion is None or b.header not in b.subregion.graph:
                     raise Viol("R-header", f"region {b.name}: header {b.header!r} not in its sub-graph")
